@@ -215,7 +215,7 @@ pub fn run_one(rep: &mut Report, prop: &str, b: &[u8], to_coq: bool) {
     for (k, id) in ids.iter().enumerate() {
         let a = catch_plain(|| generic_token::Account::unpack(b, id).map(|a| (a.mint.to_bytes().to_vec(), a.owner.to_bytes().to_vec(), a.amount)));
         let m = catch_plain(|| generic_token::Mint::unpack(b, id).map(|m| (m.supply, m.decimals)));
-        let det = |what: &str| serde_json::json!({"bytes": emit::hex(b), "address_offset": shift, "program": names[k], "what": what, "account": format!("{:?}", a), "mint": format!("{:?}", m)}).to_string();
+        let det = |what: &str| serde_json::json!({"bytes": if b.len() > 4096 { format!("{}... ({} bytes in all)", emit::hex(&b[..4096]), b.len()) } else { emit::hex(b) }, "address_offset": shift, "program": names[k], "what": what, "account": format!("{:?}", a), "mint": format!("{:?}", m)}).to_string();
         if a.is_panic() || m.is_panic() {
             rep.violate("generic-panic", "a generic token parser panicked", det("panic"));
         }
@@ -389,6 +389,39 @@ pub fn run(ctx: &Ctx, prop: &str) -> Report {
             }
         }
         rep.exhaustive.push("all buffer lengths 0..400 x bytes at offsets 45/108/165 swept over {0,1,2,3,255} (thorough: all 256 values at 45), other bytes random".into());
+    }
+    // the crate's own constants as inputs, under every program id (run_one tries the two token ids and an unknown one)
+    {
+        let nm = token::native_mint::ACCOUNT_DATA.to_vec();
+        run_one(&mut rep, prop, &nm, true);
+        let mut ext = nm.clone();
+        ext.resize(165, 0);
+        ext.push(1);
+        ext.extend_from_slice(&[0u8; 8]);
+        run_one(&mut rep, prop, &ext, true);
+        for id in [token::native_mint::id(), token::id(), token_2022::id()] {
+            // an account whose mint / owner is one of the well-known keys
+            let mut a = vec![0u8; 165];
+            a[0..32].copy_from_slice(&id.to_bytes());
+            a[32..64].copy_from_slice(&id.to_bytes());
+            a[108] = 1;
+            run_one(&mut rep, prop, &a, true);
+        }
+        rep.count("corpus:own-constants");
+    }
+    // lengths across 2^16 and 2^24 and at the 10 MiB account limit (monitor only)
+    for n in [65_535usize, 65_536, 65_537, 65_536 + 82, 65_536 + 165, 65_536 + 166, 65_536 + 355, 131_072 + 165, (1 << 24) + 165, (1 << 24) + 82, 10 * 1024 * 1024] {
+        for &(v45, v108, v165) in &[(1u8, 1u8, 1u8), (1, 1, 2), (0, 1, 2), (1, 0, 1), (1, 1, 0), (2, 2, 3)] {
+            let mut b = vec![0u8; n];
+            for x in b.iter_mut().take(400) {
+                *x = rng.byte();
+            }
+            b[45] = v45;
+            b[108] = v108;
+            b[165] = v165;
+            rep.count("length:>=64KiB");
+            run_one(&mut rep, prop, &b, false);
+        }
     }
     let n_coq = ctx.scale(900, 12000);
     for _ in 0..n_coq {
